@@ -27,11 +27,13 @@ type ctx struct {
 	ctorRoot bool   // body of a constructor: only fresh locals are setup-phase
 	inh      []heldLock
 	anns     []int
+	embOwner string // the receiver is a struct VALUE stored in field embPrefix of an object of this type
+	embPref  string
 }
 
 func (c ctx) key() string {
 	var sb strings.Builder
-	fmt.Fprintf(&sb, "%s|%d|%s|%v|", c.phase, c.class, c.home, c.ctorRoot)
+	fmt.Fprintf(&sb, "%s|%d|%s|%v|%s|%s|", c.phase, c.class, c.home, c.ctorRoot, c.embOwner, c.embPref)
 	for _, h := range c.inh {
 		fmt.Fprintf(&sb, "%s:%s:%c,", h.owner, h.name, h.mode)
 	}
@@ -99,23 +101,25 @@ type edge struct {
 }
 
 type scanner struct {
-	ld         *loader
-	own        *ownership
-	structs    map[*types.TypeName]*structInfo
-	fieldOwner map[*types.Var]*structInfo
-	funcs      map[*types.Func]*unit
-	lits       map[*ast.FuncLit]*unit
-	units      []*unit
-	goIDs      map[*ast.GoStmt]int
-	spawns     []*spawn
-	onceIDs    map[*unit]int
-	done       map[string]bool
-	rows       map[string]*row
-	edges      map[string]*edge
-	icptIface  *types.Interface
+	ld           *loader
+	own          *ownership
+	structs      map[*types.TypeName]*structInfo
+	fieldOwner   map[*types.Var]*structInfo
+	funcs        map[*types.Func]*unit
+	lits         map[*ast.FuncLit]*unit
+	units        []*unit
+	goIDs        map[*ast.GoStmt]int
+	spawns       []*spawn
+	onceIDs      map[*unit]int
+	done         map[string]bool
+	rows         map[string]*row
+	edges        map[string]*edge
+	icptIface    *types.Interface
+	spawnPick    map[string]string
+	byName       map[string]*structInfo
 	skippedLocal int
-	nctx       map[int]int
-	warnings   []string
+	nctx         map[int]int
+	warnings     []string
 }
 
 func isSyncType(t types.Type) bool {
@@ -155,7 +159,7 @@ func newScanner(ld *loader, own *ownership) *scanner {
 		ld: ld, own: own,
 		structs: map[*types.TypeName]*structInfo{}, fieldOwner: map[*types.Var]*structInfo{},
 		funcs: map[*types.Func]*unit{}, lits: map[*ast.FuncLit]*unit{}, goIDs: map[*ast.GoStmt]int{},
-		onceIDs: map[*unit]int{}, nctx: map[int]int{}, done: map[string]bool{}, rows: map[string]*row{}, edges: map[string]*edge{},
+		onceIDs: map[*unit]int{}, spawnPick: map[string]string{}, byName: map[string]*structInfo{}, nctx: map[int]int{}, done: map[string]bool{}, rows: map[string]*row{}, edges: map[string]*edge{},
 	}
 	if ip, err := ld.gc.Import(modulePath); err == nil {
 		if o := ip.Scope().Lookup("Interceptor"); o != nil {
@@ -196,6 +200,7 @@ func newScanner(ld *loader, own *ownership) *scanner {
 				si.isIcpt = true
 			}
 			sc.structs[tn] = si
+			sc.byName[si.name] = si
 		}
 	}
 	// units and go statements
@@ -372,6 +377,45 @@ func (sc *scanner) roots() {
 			sc.analyze(u, ctx{phase: "getter", class: classAny})
 		}
 	}
+}
+
+// spawnByUnit finds the go statement lexically inside the function named name (exactly one must exist).
+func (sc *scanner) spawnByUnit(name string) (int, bool) {
+	found, n := -1, 0
+	for _, u := range sc.units {
+		if u.decl == nil || u.name != name {
+			continue
+		}
+		ast.Inspect(u.body, func(m ast.Node) bool {
+			if g, ok := m.(*ast.GoStmt); ok {
+				if want := sc.spawnPick[name]; want == "" || strings.Contains(types.ExprString(g.Call.Fun), want) {
+					found = sc.goIDs[g]
+					n++
+				}
+			}
+
+			return true
+		})
+	}
+
+	return found, n == 1
+}
+
+// owners lists the types T is (transitively) part of, with the annotations used.
+func (sc *scanner) owners(t string) ([]string, []*annotation) {
+	var out []string
+	var anns []*annotation
+	for i := 0; i < 8; i++ {
+		a := sc.own.find("part-of", t, "*")
+		if a == nil {
+			break
+		}
+		out = append(out, a.by)
+		anns = append(anns, a)
+		t = a.by
+	}
+
+	return out, anns
 }
 
 func (sc *scanner) analyze(u *unit, c ctx) {
@@ -649,6 +693,9 @@ func (w *walker) stmt(s ast.Stmt) bool {
 
 				continue
 			}
+			if _, bare := r.(*ast.Ident); bare {
+				continue // returning a fresh local ends this function: later statements are not "after" it
+			}
 			w.expr(r)
 		}
 
@@ -883,6 +930,9 @@ func (w *walker) expr(e ast.Expr) {
 			w.base(e.X)
 		case sel != nil:
 			w.base(e.X)
+			if sel.Kind() == types.MethodVal {
+				w.methodValue(e, sel)
+			}
 		}
 	case *ast.CallExpr:
 		w.call(e)
@@ -1202,6 +1252,39 @@ func (sc *scanner) analyzeWithFresh(u *unit, c ctx, fresh map[types.Object]token
 	w.block(u.body.List)
 }
 
+// methodValue: x.m used as a value (callback). Whoever holds it may call it from any goroutine, so the
+// method is analysed as an entry point without locks, unless an annotation ties it to one goroutine.
+func (w *walker) methodValue(e *ast.SelectorExpr, sel *types.Selection) {
+	fn, _ := sel.Obj().(*types.Func)
+	if fn == nil {
+		return
+	}
+	var targets []*unit
+	if u, ok := w.sc.funcs[fn]; ok {
+		targets = append(targets, u)
+	} else if it, ok := w.info.TypeOf(e.X).Underlying().(*types.Interface); ok {
+		targets = w.sc.implementers(it, fn.Name())
+	}
+	for _, t := range targets {
+		c := ctx{phase: "getter", class: classAny}
+		if w.c.class == classSetup && !w.c.ctorRoot {
+			c = ctx{phase: w.c.phase, class: classSetup, anns: w.c.anns}
+		}
+		if a := w.sc.own.find("callback-on", t.name, "*"); a != nil {
+			if id, ok := w.sc.spawnByUnit(a.by); ok {
+				a.used++
+				c = ctx{phase: "loop-goroutine", class: id, anns: []int{a.idx}}
+				if t.recvInfo != nil {
+					c.home = t.recvInfo.name
+				}
+			} else {
+				w.sc.warnings = append(w.sc.warnings, "callback-on "+t.name+": no single go statement in "+a.by)
+			}
+		}
+		w.sc.analyze(t, c)
+	}
+}
+
 var trafficFuncTypes = map[string]bool{"RTPWriterFunc": true, "RTPReaderFunc": true, "RTCPWriterFunc": true, "RTCPReaderFunc": true}
 
 func (w *walker) call(e *ast.CallExpr) { w.callWith(e, nil) }
@@ -1464,6 +1547,20 @@ func (w *walker) calleeCtx(t *unit, recvExpr ast.Expr, args []ast.Expr) ctx {
 			}
 		}
 	}
+	if rs, ok := recvExpr.(*ast.SelectorExpr); ok && t.recv != nil {
+		if sel := w.info.Selections[rs]; sel != nil && sel.Kind() == types.FieldVal {
+			if _, isStruct := sel.Obj().Type().Underlying().(*types.Struct); isStruct {
+				if osi := w.sc.fieldOwner[sel.Obj().(*types.Var)]; osi != nil {
+					// receiver is a struct value inside rs.X: same memory object, the container's locks protect it
+					nc.embOwner, nc.embPref = osi.name, rs.Sel.Name
+					if w.c.embOwner != "" && w.u.recv != nil && w.canon(rs.X) == varCanon(w.u.recv) {
+						nc.embOwner, nc.embPref = w.c.embOwner, w.c.embPref+"."+rs.Sel.Name
+					}
+					rens = append(rens, ren{w.canon(rs.X), varCanon(t.recv)})
+				}
+			}
+		}
+	}
 	for _, h := range w.held {
 		nh := heldLock{owner: "", name: h.name, mode: h.mode}
 		for _, r := range rens {
@@ -1516,6 +1613,34 @@ func (w *walker) accessNamed(s *ast.SelectorExpr, pseudo, kind, note string) {
 	if pseudo != "" {
 		field = pseudo
 	}
+	// structural containment: a field of a struct VALUE stored in a field of another tracked struct is
+	// part of that object's memory; the row is attributed to the container (type, "outer.inner")
+	baseExpr := ast.Expr(s.X)
+	for {
+		se, ok := ast.Unparen(baseExpr).(*ast.SelectorExpr)
+		if !ok {
+			break
+		}
+		sel2 := w.info.Selections[se]
+		if sel2 == nil || sel2.Kind() != types.FieldVal {
+			break
+		}
+		if _, isStruct := sel2.Obj().Type().Underlying().(*types.Struct); !isStruct {
+			break
+		}
+		osi := w.sc.fieldOwner[sel2.Obj().(*types.Var)]
+		if osi == nil {
+			break
+		}
+		si, field, baseExpr = osi, se.Sel.Name+"."+field, se.X
+	}
+	if w.c.embOwner != "" && w.u.recv != nil {
+		if id, ok := ast.Unparen(baseExpr).(*ast.Ident); ok && w.canon(id) == varCanon(w.u.recv) {
+			if osi := w.sc.byName[w.c.embOwner]; osi != nil {
+				si, field = osi, w.c.embPref+"."+field
+			}
+		}
+	}
 	root := rootIdent(s.X)
 	if root != nil && w.isLocalVar(root) && w.valuePath(s.X) && !sel.Indirect() {
 		w.sc.skippedLocal++ // a struct value held in a local variable: thread-local copy
@@ -1532,15 +1657,37 @@ func (w *walker) accessNamed(s *ast.SelectorExpr, pseudo, kind, note string) {
 	case w.c.ctorRoot:
 		phase, class = "getter", classAny
 	}
+	owners, oanns := w.sc.owners(si.name)
 	if class >= 0 && si.name != w.c.home {
-		if a := w.sc.own.find("goroutine-confined", si.name, ""); a != nil {
-			a.used++
-			anns = append(anns, a.idx)
-		} else {
+		ok := false
+		for i, o := range owners {
+			if o == w.c.home {
+				ok = true
+				for _, a := range oanns[:i+1] {
+					a.used++
+					anns = append(anns, a.idx)
+				}
+			}
+		}
+		for i, o := range append([]string{si.name}, owners...) {
+			if ok {
+				break
+			}
+			if a := w.sc.own.find("goroutine-confined", o, ""); a != nil {
+				ok = true
+				a.used++
+				anns = append(anns, a.idx)
+				for _, pa := range oanns[:i] {
+					pa.used++
+					anns = append(anns, pa.idx)
+				}
+			}
+		}
+		if !ok {
 			class = classAny
 		}
 	}
-	base := w.canon(s.X)
+	base := w.canon(baseExpr)
 	var locks []rowLock
 	for _, h := range w.held {
 		own := false
@@ -1548,15 +1695,24 @@ func (w *walker) accessNamed(s *ast.SelectorExpr, pseudo, kind, note string) {
 		case h.owner != "" && h.owner == base:
 			own = true
 		case h.owner != "" && (strings.HasPrefix(base, h.owner+".") || strings.HasPrefix(base, h.owner+"[")):
-			own = !w.hasPtrHop(s.X, h.owner)
+			own = !w.hasPtrHop(baseExpr, h.owner)
 		}
 		if !own {
-			a := w.sc.own.find("confined", si.name, h.name)
-			if a == nil {
+			// a lock of an object this one is part of (ownership annotation)
+			lt := h.name[:strings.LastIndex(h.name, ".")]
+			found := false
+			for i, o := range owners {
+				if o == lt {
+					found = true
+					for _, a := range oanns[:i+1] {
+						a.used++
+						anns = append(anns, a.idx)
+					}
+				}
+			}
+			if !found {
 				continue
 			}
-			a.used++
-			anns = append(anns, a.idx)
 		}
 		locks = append(locks, rowLock{h.name, string(h.mode)})
 	}
